@@ -24,6 +24,7 @@ RULE = ('Hypothesis generates aperture-dependent packages (1..8 tabulated apertu
         'with an aperture request clamped at the largest tabulated aperture.')
 RULE += (' ' + 'Also varied: the same filter listed twice with two angular apertures, mixed named / wavelength filter lists, stored units Jy / mJy, per-filter aperture tables, aperture axis stored in any order, distance ranges typed as round numbers in pc / kpc, .gz files, long model names.')
 RULE += (' ' + 'A second fitter (another distance range) is kept alive next to the one examined in half of the cases.')
+RULE += (' ' + 'The range of the second fitter is made by updating in place the array the first fitter was given.')
 ASSUMPTIONS = [
     'when (log10 dmax - log10 dmin)/step is within 1e-9 of an integer both neighbouring grid sizes are accepted',
     'sources whose fitted points all have zero extinction coefficient are outside the domain (counted, skipped)',
@@ -136,13 +137,17 @@ def run_case(case, ctx):
     with ctx.tempdir() as d:
         gen.build_package_3d(d, case)
         for av_range in case['av_ranges']:
+            dr_arg = dr.copy()   # the array handed to the Fitter under examination
             with must_succeed('Fitter()'), quiet():
-                fitter = gen.make_fitter(d, case, av_range, distance_range=dr)
+                fitter = gen.make_fitter(d, case, av_range, distance_range=dr_arg)
             if len(case['sources']) % 2 == 0 or case.get('memmap'):
                 # a second fitter on the same package (a farther distance range) is created, used and kept alive next to
-                # the one under examination: fitters do not share state
+                # the one under examination: fitters do not share state. Its range is made by updating, in place, the array
+                # the first one was given (the caller's own variable, re-used): a Fitter is defined by what it was given when
+                # it was made
+                dr_arg *= 1.37
                 with must_succeed('a second Fitter() on the same package'), quiet():
-                    neighbour = gen.make_fitter(d, case, av_range, distance_range=dr * 1.37)
+                    neighbour = gen.make_fitter(d, case, av_range, distance_range=dr_arg)
                     neighbour.fit(gen.source_object(case['sources'][0]))
                 labels.add('second_fitter_alive')
             # the grid itself, when the public attribute exists
